@@ -54,14 +54,27 @@ def _pair_events(args):
             else:
                 ks = sorted({0, 1, rnd.randrange(8), rnd.randrange(8)})
             f = lambda k: dict(match_strand=bool(k & 1), full_span=bool(k & 2), strict_parent_compare=bool(k & 4))  # noqa
-            ov = [[k, E.outcome(lambda k=k: a.has_overlap(b, **f(k)))] for k in ks]
-            it = [[k, _locval(lambda k=k: a.intersection(b, **f(k)))] for k in ks]
-            mi = [[k, _locval(lambda k=k: a.minus(b, match_strand=bool(k & 1), strict_parent_compare=bool(k & 4)))]
-                  for k in ks if not k & 2]
-            co = [[k, E.outcome(lambda k=k: a.contains(b, **f(k)))] for k in ks]
-            un = _locval(lambda: a.union(b))
-            up = _locval(lambda: a.union_preserve_overlaps(b))
-            di = [E.outcome(lambda kd=kd: a.distance_to(b, kd)) for kd in kinds]
+            # the operation groups are asked in a random order (a quarter of the pairs: twice, the second answers
+            # are the ones judged): no answer may depend on what was computed from the same operands before
+            groups = {
+                "ov": lambda: [[k, E.outcome(lambda k=k: a.has_overlap(b, **f(k)))] for k in ks],
+                "it": lambda: [[k, _locval(lambda k=k: a.intersection(b, **f(k)))] for k in ks],
+                "mi": lambda: [[k, _locval(lambda k=k: a.minus(b, match_strand=bool(k & 1),
+                                                               strict_parent_compare=bool(k & 4)))]
+                               for k in ks if not k & 2],
+                "co": lambda: [[k, E.outcome(lambda k=k: a.contains(b, **f(k)))] for k in ks],
+                "un": lambda: _locval(lambda: a.union(b)),
+                "up": lambda: _locval(lambda: a.union_preserve_overlaps(b)),
+                "di": lambda: [E.outcome(lambda kd=kd: a.distance_to(b, kd)) for kd in kinds],
+            }
+            order = list(groups)
+            rnd.shuffle(order)
+            if rnd.random() < 0.25:
+                order = order + order
+            res = {}
+            for g in order:
+                res[g] = groups[g]()
+            ov, it, mi, co, un, up, di = (res[g] for g in ("ov", "it", "mi", "co", "un", "up", "di"))
             ev.append(["pair", [ab, ast], [bb, bst], da, db, ov, it, mi, co, un, up, di])
     return ev
 
